@@ -33,6 +33,9 @@ CLAIMS = {
     "C09": ("spec/AggOps.tla, Aggregator.tla, MC_C09.tla, TraceAggregator.tla",
             "TLC checks C09_Classes (class stack, awaiting slot vs. true nesting) for all class structures up to the bound; replayed behaviours compare py:class/py:method/py:attribute nesting, signatures, fields, notes, bases, inner-class lists; traces validated by TLC.",
             "bounds as in evidence; member strip pattern from {'', '^_p_'}", "4 C09"),
+    "C10": ("spec/Values.tla, MC_C10.tla",
+            "TLC enumerates set() with 0..n values and option() with/without default over the argument menu and checks type classification, quote stripping and joining against the statement; every command is replayed through the real pipeline at three positions and the data directive's fields and note compared.",
+            "values without line breaks; help/default as written; bounded value count", "4 C10"),
     "C11": ("spec/AggOps.tla, Aggregator.tla, MC_C11.tla, TraceAggregator.tla",
             "TLC checks C11_Tests (NAME scan, EXPECTFAIL, add_test signature by position) over argument orders and value coincidences; replayed behaviours compare the function directives carrying CMakeTest/CTest warnings; traces validated by TLC.",
             "keywords in upper case as CMake requires; NAME at most once", "4 C11"),
